@@ -204,6 +204,10 @@ def check_direct(ctx, res, histories, label="direct"):
                 if not op["foe"] and op["group"] is not None and ans != ["ok"] and len(res.monitor_failures) < 20:
                     # the statement of C08_fail_on_error_false_never_raises, on the implementation
                     res.monitor_failures.append({"what": "_handle_responses raised %s although fail_on_error=False" % ans, "scenario": {"driver": label, "ops": ops[: oi + 1]}, "tags": ["c08-fail-on-error-false-raised"]})
+            if cur6.split(" ")[0] != prev6.split(" ")[0]:
+                # no operation makes the client forget a broker it knew (C08_brokers_never_forgotten)
+                lines.append("mon-kept %s %s" % (prev6, cur6))
+                expect.append(["ok"]); meta.append((hi, oi, "mon-kept"))
             res.count("op=" + op["op"])
             prev6 = cur6
         res.evaluations += 1
@@ -295,6 +299,8 @@ def run(ctx, res):
         hs.append(gen_history(ctx.rng, ctx.rng.randrange(1, ctx.scale(14, 30))))
     check_direct(ctx, res, hs)
     from harness.props import c07
+    # stored network scenarios of this property (e.g. the witness of C08_recovers_within_retry_budget_counterexample)
+    c07.run_corpus(ctx, res, ["net-c08-"], "c08", "C08")
     c07.net_scenarios(ctx, res, ctx.scale(1200, 80000), focus="c08")
     # end-to-end recovery (C08's last sentence): real Producer + Consumers over real clients over the simulated
     # cluster, finite fault sequences (leader moves, restarts, re-addressing), then the recovery monitors
